@@ -265,10 +265,12 @@ P['C07'] = dict(
 
 P['C18'] = dict(
   design_ref='DESIGN.md section 3 C18',
-  level_text='(F) Frame: expandCellsToDensity and expandCellsByFactor executed with every field of the circuit except the widths of movable cells write-protected and all float values unconstrained: no other location is written on any path, no error is raised; public getters compared afterwards.',
-  text=dict(bounds=dict(quick='3 cells (2 movable, 1 fixed at a symbolic position), 4 rows, targets/margins/caps symbolic', thorough='same'),
-            outside='computeCellExpansion factors (harness H18C kept in the source: neither the linear error model nor exact z3 floating point closes it in the budget); the numeric claims (never narrower, utilisation below target/cap, within one cell height of target x area) need bit-exact double arithmetic: declined - the linear error model cannot exclude an off-by-one in the truncation and exact z3 floating point does not finish'),
+  level_text='(F) Frame: expandCellsToDensity and expandCellsByFactor executed with every field of the circuit except the widths of movable cells write-protected and all float values unconstrained: no other location is written on any path, no error is raised; public getters compared afterwards. (D, E) Numeric claims under the floating-point error model (every rounding an independent error bounded by half an ulp, integer-to-float conversions encoded exactly, truncations as integer floors), symbolic density target / cap over concrete mixed-height cells: no movable cell gets narrower, the movable area afterwards does not exceed target x available area beyond 1e-6 relative (ByFactor: + 3 units for its integer truncations), and for expandCellsToDensity it is within one cell height of it when the per-cell cap is not hit; (E) a single cell of symbolic width up to 2^26 is not narrowed by expandCellsByFactor.',
+  text=dict(bounds=dict(quick='F: 3 cells (2 movable, 1 fixed at a symbolic position), 4 rows, targets/margins/caps symbolic. D: 3 movable cells of heights 10/20/30 in 3 concrete size sets + 1 fixed, rows 100x40, margin 0, target symbolic in [1.001 x density, 0.95], cap 12 or 100. E: 2 size sets, factors {1,1.5,2}x{1,2.5}x1.25, cap symbolic in [1.001 x density, 0.95]; one cell of symbolic width 1..2^26 with factor 1 or 1.5', thorough='same'),
+            outside='computeCellExpansion factors (harness H18C kept in the source: neither the error model nor exact z3 floating point closes it in the budget); symbolic cell sizes together with symbolic factors (products of two symbolic quantities); side margins other than 0 in the numeric harnesses; targets within 0.1 % of the current density'),
   assumptions=STD_ASSUME + [BOOST_ASSUME],
   harnesses=[
+    dict(name='H18D', src='C18_expand.cpp', covers=['end'], defines={'VCAP': 8, 'H18D': None}, cfg=dict(fp='real', query_timeout_ms=60000, time_budget=120, loop_cap=8), diff_samples=0, ir_srcs=ALL_IR, native_srcs=ALL_IR, native_flags=['-llemon']),
+    dict(name='H18E', src='C18_expand.cpp', covers=['end'], defines={'VCAP': 8, 'H18E': None}, cfg=dict(fp='real', fp_rel=True, query_timeout_ms=60000, time_budget=120, loop_cap=8), diff_samples=0, ir_srcs=ALL_IR, native_srcs=ALL_IR, native_flags=['-llemon']),
     dict(name='H18F', src='C18_expand.cpp', covers=['end'], defines={'VCAP': 8, 'H18F': None}, cfg=dict(fp='havoc', time_budget=60, loop_cap=8), split=2, ir_srcs=ALL_IR, native_srcs=ALL_IR, native_flags=['-llemon']),
   ])
